@@ -56,7 +56,7 @@ DRIVERS = {
     "typed_q": lambda rng, tier: gen.gen_typed(rng, ALLPORTS, routes=("setter",), keys=["tcp"]) if tier == "quick"
     else gen.gen_typed(rng, ALLPORTS),
     "typed_b": lambda rng, tier: gen.gen_typed(rng, BPORTS, kts=("k256", "libsecp", "ed", "comb"), extra=T(tier, 30, 300)),
-    "eq": lambda rng, tier: gen.gen_eq(rng, T(tier, 80, 800)),
+    "eq": lambda rng, tier: gen.gen_eq(rng, T(tier, 80, 800)) + gen.gen_eq_fault(rng, T(tier, 40, 400)),
     "cross": lambda rng, tier: gen.gen_cross(rng, T(tier, 40, 400)),
     "nid": lambda rng, tier: gen.gen_nid(rng, T(tier, 30, 300)),
     "nodeid": lambda rng, tier: gen.gen_nodeid(rng, T(tier, 40, 2000)),
